@@ -161,6 +161,39 @@ def _history(args):
         sys.modules.pop('larkverif_pkg_%d_%d' % (os.getpid(), seed), None)
 
 
+def _other_versions(args):
+    """a cache file written under another lark version or another Python minor version must be replaced, not served: the other version is simulated by
+    swapping the module globals the key is computed from (lark.__version__, lark.lark.sys.version_info)"""
+    import sys as _sys, types
+    import lark, lark.lark as LL
+    from lark import Lark
+    logging.getLogger('lark').setLevel(logging.CRITICAL)
+    d = tempfile.mkdtemp(prefix='larkverif_c12_')
+    out = []
+    try:
+        g = 'start: "a"+\n'
+        for what in ('python_minor', 'lark_version'):
+            path = os.path.join(d, what + '.bin')
+            real_sys, real_ver = LL.sys, lark.__version__
+            try:
+                if what == 'python_minor':
+                    proxy = types.SimpleNamespace(**{k: getattr(_sys, k) for k in dir(_sys) if not k.startswith('__')})
+                    proxy.version_info = (_sys.version_info[0], _sys.version_info[1] + 1) + tuple(_sys.version_info[2:])
+                    LL.sys = proxy
+                else:
+                    lark.__version__ = real_ver + '.other'
+                Lark(g, parser='lalr', cache=path)
+            finally:
+                LL.sys = real_sys; lark.__version__ = real_ver
+            before = open(path, 'rb').readline()
+            Lark(g, parser='lalr', cache=path)
+            after = open(path, 'rb').readline()
+            out.append([what, before != after])
+        return out
+    finally:
+        shutil.rmtree(d, ignore_errors=True)
+
+
 def _f5(args):
     """known finding F5: a same-length change inside the pickled body is served silently"""
     from lark import Lark
@@ -263,6 +296,15 @@ def _sweep(args):
 
 
 def run(ctx, res):
+    for st, r in pmap(_other_versions, [0], procs=1):
+        if st != 'ok':
+            if st == 'exc' and not exc_in_lark(r):
+                raise InfraError(r)
+            res.violation('building with a cache file of another version raised', {'detail': r}); continue
+        for what, replaced in r:
+            res.case(['other_version', what], nontrivial=True)
+            if not replaced:
+                res.violation('a cache file written under another %s is served / not replaced (its key line stays)' % what.replace('_', ' '), {'grammar': 'start: "a"+', 'simulated': what})
     rng = random.Random(ctx['seed'] * 1000003 + 12)
     N = tier_scale(ctx['tier'], 400, 5000) * (3 if ctx['deepen'] else 1)
     jobs = [(rng.randrange(1 << 30), rng.randint(4, 12)) for _ in range(N)]
